@@ -15,9 +15,9 @@
 package main
 
 import (
-	"crypto/sha256"
 	"bytes"
 	"context"
+	"crypto/sha256"
 	"encoding/base64"
 	"encoding/json"
 	"fmt"
@@ -40,9 +40,9 @@ import (
 	"verif/mc/evgen"
 	"verif/mc/fedgen"
 	"verif/mc/harness"
-	"verif/mc/ref/refversions"
 	"verif/mc/ref/refevent"
 	"verif/mc/ref/refjson"
+	"verif/mc/ref/refversions"
 )
 
 type venv struct {
@@ -888,7 +888,6 @@ func run(r *harness.Run) {
 	_ = evgen.B64
 }
 
-
 // protoTemplates: the proto-event of a make_join / make_leave / make_knock response is remote data that the joining server
 // completes with EventBuilder.Build. Every pair of values from a menu of reference-list shapes as prev_events / auth_events,
 // in every room version, decoded as the handshake code does and built.
@@ -945,20 +944,34 @@ func protoTemplates(r *harness.Run) {
 	r.Count("make_join_templates_built", int64(n))
 }
 
-
 // wideDuplicates: an identifier member sent twice (a valid copy and one that only passes the cheap checks) on events of 13 to
 // 33 top-level members, the two copies at EVERY pair of positions, in both orders, with the content hash a sender computes
 // from the receiver's own canonical form. Readers that take the first copy in canonical order and readers that take the last
 // copy in input order must not end up validating one and using the other (sorting routines change algorithm with the width).
 func wideDuplicates(r *harness.Run) {
 	type field struct{ name, good, bad string }
-	n := 0
+	var n int64
+	type wjob struct {
+		v     string
+		width int
+		fi    int
+	}
+	var wjobs []wjob
 	for _, v := range []string{"1", "4", "10", "12"} {
+		for _, width := range r.PickInts([]int{13, 14, 20}, []int{12, 13, 14, 16, 20, 33, 64}) {
+			for fi := 0; fi < 3; fi++ {
+				wjobs = append(wjobs, wjob{v, width, fi})
+			}
+		}
+	}
+	r.Parallel(len(wjobs), func(ji int) {
+		v, width := wjobs[ji].v, wjobs[ji].width
 		env := newEnv(v)
 		room := authgen.RoomOf(v)
 		fields := []field{{"room_id", `"` + room + `"`, `"!bad:"`}, {"sender", `"` + alice + `"`, `"@:"`}, {"type", `"m.x"`, `""`}}
-		for _, width := range r.PickInts([]int{13, 14, 20}, []int{12, 13, 14, 16, 20, 33, 64}) {
-			for _, f := range fields {
+		{
+			{
+				f := fields[wjobs[ji].fi]
 				others := []string{`"auth_events":[]`, `"content":{}`, `"depth":1`, `"origin":"a.org"`, `"origin_server_ts":1`, `"prev_events":[]`, `"signatures":{}`, `"state_key":""`}
 				for _, g := range fields {
 					if g.name != f.name {
@@ -1001,7 +1014,7 @@ func wideDuplicates(r *harness.Run) {
 							}); p || js == nil {
 								continue
 							}
-							n++
+							atomic.AddInt64(&n, 1)
 							r.Eval()
 							text := js
 							rp := &reporter{r: r, in: func() caseInput {
@@ -1013,6 +1026,6 @@ func wideDuplicates(r *harness.Run) {
 				}
 			}
 		}
-	}
-	r.Count("wide_duplicate_events", int64(n))
+	})
+	r.Count("wide_duplicate_events", n)
 }
